@@ -18,6 +18,8 @@ import (
 	"github.com/libp2p/go-libp2p/core/protocol"
 
 	datatransfer "github.com/filecoin-project/go-data-transfer/v2"
+
+	"verif/shim/core"
 )
 
 var (
@@ -42,6 +44,10 @@ type recHost struct {
 	handlers map[protocol.ID]network.StreamHandler
 	// Open scripts attempt i: "ok", "fail", "hang" (block until the attempt's context ends)
 	Open func(i int) string
+	// OpenFor, when set, scripts the k-th attempt (from 0) towards peer p instead (concurrent senders)
+	OpenFor func(p peer.ID, k int) string
+	// Yield makes every stream-open attempt pass through a scheduling point (thread-level exploration)
+	Yield bool
 	// OnOpen is called at the start of attempt i (used to cancel the caller's context at a chosen point)
 	OnOpen func(i int)
 	// OnOpenFailed is called right after attempt i failed
@@ -65,8 +71,17 @@ func (h *recHost) ConnManager() connmgr.ConnManager                    { return 
 func (h *recHost) Connect(ctx context.Context, pi peer.AddrInfo) error { return nil }
 
 func (h *recHost) NewStream(ctx context.Context, p peer.ID, pids ...protocol.ID) (network.Stream, error) {
+	if h.Yield {
+		core.Point("stmt", "host:newstream")
+	}
 	h.mu.Lock()
 	i := len(h.Opens)
+	k := 0
+	for _, o := range h.Opens {
+		if o.Peer == p {
+			k++
+		}
+	}
 	h.Opens = append(h.Opens, openCall{At: time.Now(), Peer: p})
 	h.mu.Unlock()
 	if h.OnOpen != nil {
@@ -75,6 +90,9 @@ func (h *recHost) NewStream(ctx context.Context, p peer.ID, pids ...protocol.ID)
 	ans := "ok"
 	if h.Open != nil {
 		ans = h.Open(i)
+	}
+	if h.OpenFor != nil {
+		ans = h.OpenFor(p, k)
 	}
 	switch ans {
 	case "fail":
